@@ -259,7 +259,16 @@ def rule_template(ctx):
                 pr.append("value and description are separated by %r; the reader needs a ':' set off by a blank" % parts[2])
             if parts[2].count(":") != 1:
                 pr.append("separator %r contains more than one ':'" % parts[2])
-        ctx.check(not pr, "WR.TEMPLATE", site, nf, b, "template %r: MNEM.UNIT<pad>RHS : TAIL" % tpl, "; ".join(pr))
+        # the three fields are item attributes, verbatim or through str(): no `or`, conditional or arithmetic on them
+        if isinstance(b.right, ast.Tuple):
+            for el in b.right.elts:
+                for x in ast.walk(el):
+                    if isinstance(x, (ast.BoolOp, ast.IfExp, ast.BinOp, ast.Compare)) or (
+                            isinstance(x, ast.Call) and isinstance(x.func, ast.Attribute) and x.func.attr in ("strip", "replace", "upper", "lower", "format")):
+                        pr.append("field `%s` is transformed (`%s`): e.g. `x or ''` writes the legitimate values 0 and 0.0 as an "
+                                  "empty field in one layout but not in the other" % (unparse(el), unparse(x)))
+                        break
+        ctx.check(not pr, "WR.TEMPLATE", site, nf, b, "template %r: MNEM.UNIT<pad>RHS : TAIL" % tpl, "; ".join(dict.fromkeys(pr)))
     if n < 2:
         raise AnalysisError("cannot find the two line-formatting functions in writer.get_formatter_function")
     # middle field builder: unit + blanks + right-hand item (lambda or def, padding possibly in a local)
